@@ -38,6 +38,19 @@ CLAIMED["C11"] = dict(
         "answer-by-answer with the model; the property oracle is evaluated on the decoded rows.",
    note=TB + "Rows are opaque identifiers in the model (their encoding is C05). Async-generator finalisation by the interpreter is not modelled.",
    design="DESIGN.md section 4, C11")
+CLAIMED["C12"] = dict(
+   technique="Lean 4 proof (buffer invariant by induction over any row sequence; connection-machine frame lemma for parked coroutines; arithmetic of cooperative yield points) + extracted constants / loop table + differential execution under transport stop/resume schedules",
+   text="Theorems in lean/MimicProps/C12.lean: for every threshold B, metadata size, result length and row widths the rows pulled and not yet handed to the "
+        "transport never exceed (B-1)/5 (lookahead_bounded, instantiated with the extracted buffer size); with a drain per packet nothing is pulled ahead; a "
+        "coroutine parked in drain() does nothing until the transport resumes (blocked_pulls_nothing, on the connection machine); a command of another "
+        "connection arriving at row k of an arbitrarily long result is answered at most batch+1 rows later (served_within_batch) and the three row loops of the "
+        "code are cooperative (row_loops_cooperative, over a table extracted from the source each run). inference_lookahead_partial + witness theorem for the "
+        "known finding D12. Tie: extraction (buffer size, batch size, loop/drain table) + the real connection over a transport that pauses on a schedule: rows "
+        "pulled from an instrumented source at every transport write = model flush points (text, binary, fetch; bounded and unbounded sources; widths from NULL "
+        "to wider than the buffer), rows pulled when a second connection's PING is answered = servedAt. The property's oracle (no write / bounded pulls after "
+        "pause, nothing pulled while parked, witness served within batch+1) runs on every case.",
+   note=TB + "asyncio's flow-control contract (pause_writing / drain) is the boundary: kernel socket buffers are not modelled. Known finding D12 (inference on an all-NULL bare column) is listed in known_findings.json.",
+   design="DESIGN.md section 4, C12")
 CLAIMED["C05"] = dict(
    technique="Lean 4 proof (round-trip theorems for NULL bitmap, binary rows of all encoder classes, text framing, decimal text, durations; row-preservation of inference) + extracted encoder tables + byte-for-byte differential execution",
    text="Theorems in lean/MimicProps/C05.lean: NULL-bitmap round trip for every size/offset/pattern; binary rows of well-formed values of every supported "
